@@ -102,7 +102,11 @@ func HarnessC20Registry() {
 		src := "{{ " + c20Recv[t] + "." + name + "(" + c20Args + ") }}"
 		var data map[string]any
 		throughTemplate := false
-		switch vChoice("via", 5) {
+		viaFile := false
+		switch vChoice("via", 6) {
+		case 5: // a file evaluated by path
+			data = map[string]any{"v": []any{"r", []any{1, "x"}, 5, 2.5, true}[t]}
+			viaFile = true
 		case 4: // through the Template that was loaded before the registrations, receiver from the Go data
 			data = map[string]any{"v": []any{"r", []any{1, "x"}, 5, 2.5, true}[t]}
 			throughTemplate = true
@@ -117,7 +121,10 @@ func HarnessC20Registry() {
 		last = nil
 		var out string
 		var err error
-		if throughTemplate {
+		if viaFile {
+			vfsWriteFile("one/file.txt", "{{ v."+name+"("+c20Args+") }}")
+			out, err = EvaluateFile(vfsCwd()+"/one/file.txt", data)
+		} else if throughTemplate {
 			prefix := "c" // top level; for the names a and len also inside an insert block and inside a slot body
 			if name == "a" || name == "len" {
 				prefix = []string{"c", "i", "s"}[vChoice("position", 3)]
@@ -194,8 +201,21 @@ func HarnessC20Values() {
 	vAssert(rerr == nil, "first-registration-succeeds")
 	rerr = RegisterArrFunc("none", func(a []any, args ...any) []any { return nil })
 	vAssert(rerr == nil, "first-registration-succeeds")
+	rerr = RegisterArrFunc("chans", func(a []any, args ...any) []any { return []any{1, make(chan int)} })
+	vAssert(rerr == nil, "first-registration-succeeds")
+	rerr = RegisterArrFunc("funcs", func(a []any, args ...any) []any { return []any{map[string]any{"k": func() {}}} })
+	vAssert(rerr == nil, "first-registration-succeeds")
 	var src, want string
-	switch vChoice("shape", 6) {
+	shape := vChoice("shape", 9)
+	if shape >= 6 {
+		// a result that could not be passed as data either (it holds a channel / a function) is an error, as it is for data
+		src := []string{"{{ [1].chans() }}", "{{ [1].chans().len() }}", "x{{ [1].funcs()[0].k }}"}[shape-6]
+		out, err := EvaluateString(src, nil)
+		vCover("rendered")
+		vAssert(err != nil && out == "", "unsupported-result-is-an-error-as-it-is-for-data")
+		return
+	}
+	switch shape {
 	case 0: // the same array variable passed to two calls
 		src, want = "{{ v = [3, 9, 1] }}{{ v.grab() }}|{{ v.grab() }}|{{ v }}", "3, 9, 1|3, 9, 1|3, 9, 1"
 	case 1: // ... as an argument, twice
